@@ -52,6 +52,9 @@ def blocks(tier, seed):
     add_cart((2, 2, 2), dx=[2e-6, 2e-6, 1e-6], origin=[0.0, 0.0, 0.0], via_field=True)
     add_cart((4,), dx=[1e-17], origin=[0.0], via_field=True)
     add_cart((3, 3), dx=[1e8, 3e8], origin=[-1e9, 0.0])
+    # boxes far away from the coordinate origin (|origin| / spacing = 2^27, all cell centres exactly representable)
+    add_cart((3, 3), origin=[2.0**27, -(2.0**27)], via_field=True)
+    add_cart((6,), origin=[2.0**27])
     if tier == "thorough":
         add_cart((4, 4), npre=4)
     else:  # quick: the doubly periodic mask only (all 65536 images)
@@ -360,7 +363,8 @@ def run_case(case, ctx):
                 if abs(dz_) <= 1e-9 * max(1.0, Lz) and abs(p[0]) <= 1e-12 and abs(p[1]) <= 1e-12:
                     return True
             return False
-        return pdist(g, p, e["pos"]) <= 1e-9 * max(geom.cart_lengths(g))
+        # 1e-9 of the box, plus the resolution of a double at the magnitude of the coordinates (boxes far from the origin)
+        return pdist(g, p, e["pos"]) <= 1e-9 * max(geom.cart_lengths(g)) + 8 * np.finfo(float).eps * max(abs(o) + L_ for o, L_ in zip(g["origin"], geom.cart_lengths(g)))
 
     cands = []
     for d in em:
